@@ -32,6 +32,8 @@ def pairs(seed):
         (f"dir/{a}", f"dir/{b}"),  # inside a sub-directory
         (a, f"dir/{a}"),           # into a sub-directory
         (f"{a}.zo", f"{b}.zo"),    # names given with extension
+        ("todo.zo", "tasks.zo"),   # base name ends in characters of the extension
+        ("zoo", "buzz"),
     ]
 
 
@@ -138,7 +140,7 @@ def _cases(ctx):
     n = 13
     maxk = 2 if ctx.quick else 3
     cases = []
-    for pi in range(6):
+    for pi in range(len(pairs(ctx.seed))):
         for k in range(0, maxk + 1):
             for subset in it.combinations(range(n), k):
                 cases.append([pi, list(subset)])
@@ -156,8 +158,8 @@ def run(ctx: F.Ctx):
     rep = F.explore(ctx, cases, lambda c: _run_case(ctx, c), sample=lambda c: _sample(ctx, c), twice_every=151)
     meta = {
         "rule": (
-            "6 renames (plain, B extends A, A extends B, inside a sub-directory, into a "
-            "sub-directory, names given with .zo) x every subset of size <= 2 (quick) / <= 3 "
+            "8 renames (plain, B extends A, A extends B, inside a sub-directory, into a "
+            "sub-directory, names given with .zo, base names ending in o / z) x every subset of size <= 2 (quick) / <= 3 "
             "(thorough) of 13 link texts confusable with A ([[A]], [[A#anc]], twice on a line, "
             "[[Ax]], [[xA]], [[A/sub]], [[up/A]], [[A.zo]], [A], [[ A]], ((A)), the bare word, "
             "[[B]]) + the full set; each subset is written one per line and all on one line into "
